@@ -198,3 +198,54 @@ Proof.
   unfold aten_convnd_attrs_fixed, conv_attrs_ok. rewrite X1, X2, X3, zlen_app, L1, L2, L3.
   replace (e =? e) with true by lia. replace (e + e =? 2 * e) with true by lia. reflexivity.
 Qed.
+
+(* ================================================================== flagged variants used by the correspondence checker *)
+Lemma convolution_attrs_v_fixed : forall e stride padding dilation transposed output_padding st pd dl op,
+  0 <= e -> torch_conv_params e stride padding dilation output_padding = Some (st, pd, dl, op) ->
+  aten_convolution_attrs_v true e stride padding dilation transposed output_padding = Some (st, (pd ++ pd)%list, dl, op).
+Proof. exact convolution_attrs_fixed_correct. Qed.
+
+Lemma convolution_attrs_v_as_read : forall e stride padding dilation transposed output_padding,
+  aten_convolution_attrs_v false e stride padding dilation transposed output_padding
+  = aten_convolution_attrs e stride padding dilation transposed output_padding.
+Proof. reflexivity. Qed.
+
+Lemma convnd_attrs_v_fixed : forall e stride padding dilation has_bias st pd dl op,
+  0 <= e -> torch_conv_params e stride padding dilation [0] = Some (st, pd, dl, op) ->
+  aten_convnd_attrs_v true true e stride padding dilation has_bias = Some (st, (pd ++ pd)%list, dl, []).
+Proof.
+  intros e stride padding dilation hb st pd dl op He H.
+  rewrite <- (convnd_attrs_fixed_correct e stride padding dilation hb st pd dl op He H).
+  unfold aten_convnd_attrs_v, aten_convnd_attrs_fixed, aten_convnd_attrs. rewrite Bool.orb_true_r. reflexivity.
+Qed.
+
+Lemma convnd_attrs_v_as_read : forall e stride padding dilation has_bias,
+  aten_convnd_attrs_v false false e stride padding dilation has_bias = aten_convnd_attrs e stride padding dilation has_bias.
+Proof. intros. unfold aten_convnd_attrs_v. rewrite Bool.orb_false_r. reflexivity. Qed.
+
+(* C08_14: scatter_add / scatter_reduce with the Unsqueeze of scatter.src: index and src of one shape, 0-d included *)
+Lemma scatter_add_v_fixed : forall s dim idx out,
+  0 < zlen s -> prodZ idx <> 0 ->
+  torch_scatter_shape s dim idx (Some idx) = Some out -> aten_scatter_add_shape_v true s dim idx idx = Some out.
+Proof. intros. unfold aten_scatter_add_shape_v. apply scatter_src_partial; assumption. Qed.
+
+Lemma ensure1_rank : forall x, 0 < zlen (ensure1 x).
+Proof. intros [|u x]; [reflexivity | cbn [ensure1]; rewrite zlen_cons; pose proof (zlen_nonneg _ x); lia]. Qed.
+Lemma ensure1_idem : forall x, ensure1 (ensure1 x) = ensure1 x.
+Proof. intros [|u x]; reflexivity. Qed.
+Lemma prodZ_ensure1 : forall x, prodZ (ensure1 x) = prodZ x.
+Proof. intros [|u x]; reflexivity. Qed.
+
+Lemma scatter_reduce_v_fixed : forall s dim idx include_self out,
+  0 < zlen s -> prodZ idx <> 0 ->
+  torch_scatter_shape s dim idx (Some idx) = Some out -> aten_scatter_reduce_shape_v true s dim idx idx include_self = Some out.
+Proof.
+  intros s dim idx inc out Hr Hn H. unfold aten_scatter_reduce_shape_v. replace (zlen s =? 0) with false by lia. cbn [andb negb].
+  rewrite unsq0_ensure1. cbn [obind]. apply scatter_reduce_partial; [assumption | apply ensure1_rank | rewrite prodZ_ensure1; assumption |].
+  unfold torch_scatter_shape in *. rewrite prodZ_ensure1, ensure1_idem. exact H.
+Qed.
+
+Lemma scatter_v_as_read : forall s dim idx src inc,
+  aten_scatter_add_shape_v false s dim idx src = aten_scatter_add_shape s dim idx src /\
+  aten_scatter_reduce_shape_v false s dim idx src inc = aten_scatter_reduce_shape s dim idx src inc.
+Proof. intros. split; reflexivity. Qed.
